@@ -1,6 +1,7 @@
 import FlVerif.Spec.Pipeline
 import FlVerif.Op.Engine
 import FlVerif.Lemmas.CodeEngine
+import FlVerif.Lemmas.CodeDegree   -- `Antecedent.activation_degree` = `Op.degree` (theorem `C06.code_activationDegree`)
 
 /-! # C01 — Engine output equals the documented inference pipeline
 
